@@ -8,7 +8,7 @@ SCHEMA = f'''<xs:schema {XS} targetNamespace="urn:t" xmlns:t="urn:t" elementForm
       <xs:element name="name" type="xs:token"/><xs:element name="qty" type="xs:positiveInteger"/>
       <xs:element name="kind" type="xs:token" fixed="article" minOccurs="0"/>
       <xs:element name="val" minOccurs="0" nillable="true"/>
-      <xs:element name="mark" minOccurs="0"><xs:complexType><xs:attribute name="m" type="xs:int"/></xs:complexType></xs:element>
+      <xs:element name="mark" minOccurs="0"><xs:complexType><xs:attribute name="m" type="xs:int"/><xs:anyAttribute namespace="##other" processContents="skip"/></xs:complexType></xs:element>
       <xs:element ref="t:opt" minOccurs="0" maxOccurs="2"/>
       <xs:element name="sub" minOccurs="0" maxOccurs="unbounded"><xs:complexType><xs:sequence>
           <xs:element name="leaf" type="xs:int" minOccurs="0" maxOccurs="3"/></xs:sequence>
